@@ -188,6 +188,24 @@ func merge[EntityT entity.Interface](def Definition, wrapper func(e *Entity) Ent
 		return entity.NewMergeUpdatedStatus(id, remoteEntity)
 	}
 
+	// Two versions of the same entity share at least their first commit. Joining two histories
+	// that have nothing in common would create an entity with two roots, which can't be read.
+	related := false
+	localSet := make(map[repository.Hash]struct{}, len(localCommits))
+	for _, hash := range localCommits {
+		localSet[hash] = struct{}{}
+	}
+	for _, hash := range remoteCommits {
+		if _, ok := localSet[hash]; ok {
+			related = true
+			break
+		}
+	}
+	if !related {
+		return entity.NewMergeInvalidStatus(id,
+			fmt.Sprintf("remote %s has no commit in common with the local one", def.Typename))
+	}
+
 	// SCENARIO 5
 	// if both local and remote Entity have new commits (that is, we have a concurrent edition),
 	// a merge commit with an empty operationPack is created to join both branch and form a DAG.
